@@ -231,6 +231,11 @@ def gen_plan(seed, tier="quick", variant=None):
         t0 = round(rng.random() * horizon * 0.3, 6)
         faults = faults[:1] + [{"t": t0, "act": "broker_down", "node": n, "elect": rng.random() < 0.3},
                                {"t": round(t0 + rng.choice([0.6, 1.5, 3.0]), 6), "act": "broker_up", "node": n}]
+        if nb > 1 and rng.random() < 0.3:
+            # ... or the broker leaves for good (leadership moves first): the only signal a producer without acknowledgements
+            # ever gets that its routing is stale is the failed transmission
+            faults = [{"t": t0, "act": "retire_broker", "node": n}]
+            cfg["warm"] = True
         # a burst of sends right after the broker went away, spread over the partitions: one batch spans dead and healthy brokers
         pc["partitioner"] = rng.choice(["rr", "rr", "hashed"])
         sends_ = [o for o in ops if o["op"] == "send"]
@@ -272,6 +277,11 @@ def gen_plan(seed, tier="quick", variant=None):
             cfg["seg"] = [rng.choice(["coalesce", "writes", "random"]), rng.choice(["coalesce", "writes", "random"])]
         for j in range(rng.randint(1, 4)):
             post.append({"id": 1000 + j, "topic": rng.choice(topics)["name"], "key": ("70%04x" % j) if pc["partitioner"] == "hashed" else None,
+                         "msgs": [3], "dt": round(0.5 + rng.random(), 6)})
+    if faults and all(f.get("act") == "retire_broker" for f in faults):
+        # sends after the departure has been digested: whatever acknowledgement level, they must be stored
+        for j in range(rng.randint(2, 4)):
+            post.append({"id": 1000 + j, "topic": topics[0]["name"], "key": ("70%04x" % j) if pc["partitioner"] == "hashed" else None,
                          "msgs": [3], "dt": round(0.5 + rng.random(), 6)})
     plan = {"family": FAMILY, "seed": seed, "tier": tier, "cfg": cfg, "ops": ops, "faults": faults, "post": post,
             "t_faults_end": t_faults_end}
@@ -863,13 +873,15 @@ def _run(w, plan):
                 res.probe("hashed_text_form_checked")
 
     # ---- C08 recovery (producer half) ----
-    if cfg["variant"] == "recovery":
+    if cfg["variant"] == "recovery" or (plan["faults"] and all(f.get("act") == "retire_broker" for f in plan["faults"])):
         for sid in order:
             s = sends[sid]
             if not s["post"]:
                 continue
             if s["topic"] not in topics_parts:
                 continue
+            if state.get("stop_seq") is not None and (not s["w"].fires or s["w"].seq >= state["stop_seq"]):
+                continue  # the application stopped the producer while this send was outstanding
             # The producer has one attempt counter per batch cycle, and looking up a topic that does not exist spends
             # it (producer.py _next_partition).  A send whose life overlaps such a lookup may find the budget gone, so
             # "within the retry budget" promises nothing for it.
@@ -885,6 +897,23 @@ def _run(w, plan):
                             "send %d issued %.2fs after the last fault: %r" % (sid, s["t"] - t_base[0] - plan["t_faults_end"], s["w"].value))
             else:
                 res.probe("post_fault_send_ok")
+                only_retirement = bool(plan["faults"]) and all(f.get("act") == "retire_broker" for f in plan["faults"])
+                if pc["acks"] == 0 and only_retirement:
+                    # no acknowledgement, and the only leadership change was a broker leaving for good: its failed
+                    # transmissions must have re-routed the producer, so what it reports sent now is stored
+                    res.oblige("C08")
+                    stored = set()
+                    for t_ in cl.topics.values():
+                        for p_ in t_.partitions.values():
+                            for m_ in p_.messages():
+                                stored.add((m_.key, m_.value))
+                    lost = [kv for kv in s["kvs"] if kv[1] is not None and kv not in stored]
+                    if lost:
+                        res.violate("C08", "C08:send-after-a-broker-left-for-good-never-stored:acks0",
+                                    "send %d (no acknowledgements) issued %.2fs after the broker had left reported success, %d of its messages are in no log" % (
+                                        sid, s["t"] - t_base[0] - plan["t_faults_end"], len(lost)))
+                    else:
+                        res.probe("acks0_post_fault_send_stored_after_retirement")
 
     # ---- C04 ----
     w.check_wire("C04")
